@@ -2,7 +2,8 @@
    Only statements here; proofs are in proofs/SubstClean.v. *)
 Require Import D42.Prelude D42.Value D42.Regex D42.Schema D42.Validate D42.Conforms
                D42.FromNative D42.Substitute D42.Agree.
-Require Import D42P.SubstClean.
+From Coq Require Import PrimFloat.
+Require Import D42P.SubstClean D42P.SubstIdem.
 
 (* For every well-formed schema and EVERY value - conforming or not, convertible or not,
    with `...`/Nil placeholders or opaque objects anywhere - substitution returns a schema
@@ -34,13 +35,39 @@ Example ill_formed_raises :
              (VList [VNone; VNone; VNone]) = Raise AttributeError.
 Proof. vm_compute. reflexivity. Qed.
 
-(* The second half of the property, as a statement: substituting the same plain, NaN-free
-   value into the result again returns the same schema.  Not yet proved in Coq (see
-   DESIGN.md); checked on every run by the oracle on the implementation and by the
-   correspondence of both substitutions with the model. *)
-Definition subst_idempotent_statement : Prop :=
+(* Idempotence: substituting the same plain, NaN-free value (dict keys pairwise distinct, as in
+   any Python dict) into the result again succeeds and returns the SAME schema (Leibniz-equal,
+   hence equal under schema ==); the partial validator accepts the value at every path.  This
+   holds for every well-formed schema, including the choice points where "the result accepts
+   v" fails (F20/F25). *)
+Theorem subst_idempotent :
   forall s v s', wf s = true -> plain v = true -> vwf v = true -> no_nan v = true ->
                  substitute s v = Ok s' -> substitute s' v = Ok s'.
+Proof.
+  intros s v s' Hwf Hp Hv Hn Hs. exact (proj2 (subst_idem_lemma s Hwf v s' Hp Hv Hn Hs)).
+Qed.
+Print Assumptions subst_idempotent.
+
+Theorem subst_result_revalidates :
+  forall s v s', wf s = true -> plain v = true -> vwf v = true -> no_nan v = true ->
+                 substitute s v = Ok s' -> forall p, validate Subst s' p v = [].
+Proof.
+  intros s v s' Hwf Hp Hv Hn Hs. exact (proj1 (subst_idem_lemma s Hwf v s' Hp Hv Hn Hs)).
+Qed.
+Print Assumptions subst_result_revalidates.
+
+(* The NaN exclusion is needed (known finding F10): *)
+Example idempotence_refuted_for_nan :
+  match substitute (SFloat None None None None) (VFloat PrimFloat.nan) with
+  | Ok s' => substitute s' (VFloat PrimFloat.nan)
+  | r => r end = Err SubstErr.
+Proof. vm_compute. reflexivity. Qed.
+
+(* "Never returns a schema that accepts nothing or cannot be generated from" is decided per
+   run on /repo (harness/props/c12.py): when every sub-schema of S generates accepted values,
+   so must S % v.  In the model it follows from C04's subst_pins/C05's subst_narrows only
+   together with C01's [sat], which substitution need not preserve for unsatisfiable optional
+   members (DESIGN 6, C12). *)
 
 (* non-vacuity *)
 Example ex_err : substitute (SInt None None None) (VStr [97]) = Err SubstErr.
